@@ -357,6 +357,16 @@ def process_config(args):
                     r = c._fresh_check(z3.BoolVal(True)) if c.nl_mode else c.solver.check()
                     if r == z3.unknown:
                         r = c._fresh_check(z3.BoolVal(True))
+                    if r == z3.unknown:
+                        # vacuity guard only: satisfiable with UF applications as free reals (relaxation)
+                        ab = abstract_ufs(list(c.assumptions) + c.path_condition())
+                        if ab is not None:
+                            s_ = z3.Solver()
+                            s_.set("timeout", 20000)
+                            s_.add(*ab)
+                            if s_.check() == z3.sat:
+                                r = z3.sat
+                                res["feasible_modulo_uf"] = res.get("feasible_modulo_uf", 0) + 1
                     if r == z3.unsat:
                         res["infeasible"] += 1
                         continue
